@@ -216,6 +216,30 @@ Section Wrap.
   Qed.
 End Wrap.
 
+Lemma send_summary :
+  forall (is_space : N -> bool) (wrap : list N -> Z -> list (list N)),
+  is_space 10 = true ->
+  (forall l w, (1 <= w)%Z -> Forall (fun p => (Z.of_nat (length p) <= w)%Z) (wrap l w)) ->
+  (forall l w, (1 <= w)%Z -> filter (fun c => negb (is_space c)) (concat (wrap l w)) = filter (fun c => negb (is_space c)) l) ->
+  forall (nicklen : nat) (msgType user message : list N) (len : option Z),
+  let fmt := fmt_of msgType user in
+  let w := width_of nicklen fmt len in
+  ((limit_of nicklen fmt len <= minimum_of fmt)%Z /\ send_with wrap nicklen msgType user message len = OValueError)
+  \/ ((1 <= w)%Z
+      /\ send_with wrap nicklen msgType user message len
+         = OSent (map (fun piece => wire_line (fmt ++ piece)) (pieces_of wrap w message))
+      /\ filter (fun c => negb (is_space c)) (concat (pieces_of wrap w message))
+         = filter (fun c => negb (is_space c)) message
+      /\ forall p, In p (pieces_of wrap w message) ->
+           (Z.of_nat (length (fmt ++ p)) + 2 <= limit_of nicklen fmt len)%Z).
+Proof.
+  intros is_space wrap Hlf Hw Hc nicklen msgType user message len fmt w.
+  destruct (send_with_cases wrap nicklen msgType user message len) as [H | [H1 H2]]; [left; exact H|].
+  right. split; [exact H1|]. split; [exact H2|]. split.
+  - exact (content_preserved is_space Hlf wrap Hc nicklen msgType user message len H1).
+  - exact (chars_le_limit wrap Hw nicklen msgType user message len H1).
+Qed.
+
 (** ---------------- the octet limit is false in general (F17) ---------------- *)
 
 Definition ex_msgType : list N := [80; 82; 73; 86; 77; 83; 71].     (* PRIVMSG *)
